@@ -1,7 +1,9 @@
 """What MANIFEST.json claims per property (texts)."""
 ENGINES = [
     {"name": "rcfork", "path": "src/common/engine.cpp", "kind_free_text": "rapidcheck generates and shrinks an integer tape; the harness decodes it into a structured case (topology source, configuration, operation history) and runs it with its oracle in a forked child under ASan/UBSan/LSan, so that oracle failures, hwloc assertion aborts, sanitizer reports and hangs all shrink and replay the same way",
-     "serves_properties": ["C01"]},
+     "serves_properties": ["C01", "C03", "C04"]},
+    {"name": "lf", "path": "src/fuzz", "kind_free_text": "libFuzzer coverage-guided byte fuzzing (clang -fsanitize=fuzzer,address,undefined) with the semantic oracle inside the target; artifacts are replayed three times and classified by failure signature before a VIOLATION is printed",
+     "serves_properties": ["C04"]},
 ]
 TB = "Trusted base: clang 14 sanitizers, rapidcheck, the reference models in /verif/src (independent well-formedness checker wf.hpp written from the property statement over the public API; bit sets converted through hwloc_bitmap_isset only). Exploration only: no claim of absence beyond the generated cases; bounds are stated in the evidence file."
 CLAIMS = {
@@ -9,4 +11,10 @@ CLAIMS = {
                 text="Generated-input exploration of load(): synthetic descriptions by grammar and the 27 corpus XML files, crossed with generated flag words and per-type filter assignments (legal and illegal), each judged by an independent transcription of the well-formedness statement plus the built-in checker; failed loads must leave a reusable topology. Thousands of distinct non-trivial configurations per quick run; regressions for the four defects found and fixed are replayed first.",
                 note=TB + " Linux/x86 snapshot sources are exercised under C18, XML mutation under C06."),
 }
+CLAIMS["C03"] = dict(engine="rcfork", technique="model-based property testing: lock-step histories of bitmap calls against a reference finite/cofinite set model",
+    text="Histories of up to 24 constructor/modifier/combinator calls over three bitmap slots (aliased destinations, boundary-biased indexes up to 70000, all ulong conversions) are executed in lock-step on hwloc and on a reference set model; after every call the bitmap is observed through isset and at the end every query (first/next/last, unset variants, weight, inclusion/equality/intersection, compare, compare_first, compare_inclusion, to/from ulongs) is compared with the model for every slot and ordered pair, so equal sets reached through different representations must behave identically.",
+    note=TB)
+CLAIMS["C04"] = dict(engine="rcfork+lf", technique="property-based testing (round-trip and snprintf-contract oracles over generated bitmaps and strings) + libFuzzer targets with in-target oracles for the three parsers",
+    text="For generated bitmaps (as C03) and the three formats: snprintf(NULL,0)=snprintf(big)=asprintf, every buffer length 0..needed+1 (all up to 96, then sampled) checked with guard frames for bounds, NUL, prefix and return value; print/parse round trip into fresh and dirty destinations; mutated, grammar-generated and arbitrary strings parsed from exactly-sized heap blocks must return 0/-1, not depend on the destination's previous content and be stable under print-then-parse. Three libFuzzer targets apply the same parse oracle to coverage-guided byte strings.",
+    note=TB + " List strings whose tokens denote indexes above 10^6 are skipped (allocation cost only, counted in the evidence).")
 NOT_CLAIMED = {}
